@@ -70,6 +70,70 @@ pub open spec fn snap_effs(h: RaftDataHandler, rec: SnapshotRecordDto) -> Seq<Ef
     else { seq![] }
 }
 
+/// the messages a whole snapshot stands for, in file order
+pub open spec fn snap_effs_all(h: RaftDataHandler, recs: Seq<SnapshotRecordDto>) -> Seq<Eff>
+    decreases recs.len()
+{
+    if recs.len() == 0 { seq![] } else { snap_effs_all(h, recs.drop_last()) + snap_effs(h, recs.last()) }
+}
+pub proof fn lemma_snap_effs_all_step(h: RaftDataHandler, recs: Seq<SnapshotRecordDto>, k: int)
+    requires 0 <= k <= recs.len()
+    ensures k < recs.len() ==> snap_effs_all(h, recs.take(k + 1)) == snap_effs_all(h, recs.take(k)) + snap_effs(h, recs[k]),
+        snap_effs_all(h, recs.take(0)) == Seq::<Eff>::empty(),
+        recs.take(recs.len() as int) == recs,
+{
+    if k < recs.len() {
+        let a = recs.take(k + 1);
+        assert(a.drop_last() =~= recs.take(k));
+        assert(a.last() == recs[k]);
+    }
+    assert(recs.take(0).len() == 0);
+    assert(recs.take(recs.len() as int) =~= recs);
+}
+pub proof fn lemma_snap_effs_all_step_arc(hw: Arc<RaftDataHandler>, recs: Seq<SnapshotRecordDto>, k: int)
+    requires 0 <= k <= recs.len()
+    ensures k < recs.len() ==> snap_effs_all(*hw, recs.take(k + 1)) == snap_effs_all(*hw, recs.take(k)) + snap_effs(*hw, recs[k]),
+        snap_effs_all(*hw, recs.take(0)) == Seq::<Eff>::empty(),
+        recs.take(recs.len() as int) == recs,
+{
+    if k < recs.len() {
+        let a = recs.take(k + 1);
+        assert(a.drop_last() =~= recs.take(k));
+        assert(a.last() == recs[k]);
+    }
+    assert(recs.take(0).len() == 0);
+    assert(recs.take(recs.len() as int) =~= recs);
+}
+/// C08: the membership message a snapshot header stands for (member list, joint-consensus list only when present, address table)
+pub open spec fn snap_member_eff(im: Addr<RaftIndexManager>, h: SnapshotHeaderDto) -> Eff {
+    Eff { to: addr_id(im), msg: save_member_msg(h.member@,
+        if h.member_after_consensus@.len() == 0 { None } else { Some(h.member_after_consensus@) }, Some(addr_tbl(h.node_addrs))) }
+}
+
+/// C01: the end of loading is announced to the five components that wait for it
+pub open spec fn complete_effs(h: RaftDataHandler) -> Seq<Eff> {
+    seq![sent(h.namespace, RaftApplyDataRequest::LoadCompleted), sent(h.sequence_db, RaftApplyDataRequest::LoadCompleted),
+        sent(h.mcp_manager, RaftApplyDataRequest::LoadCompleted), sent(h.naming_actor, RaftApplyDataRequest::LoadCompleted),
+        sent(h.direct_cache_manager, RaftApplyDataRequest::LoadCompleted)]
+}
+impl StateApplyManager {
+    /// C01 / C07: what the replay stage of a start-up sends — ONE request to the log manager for exactly the entries behind the last
+    /// snapshot up to the last applied one, `[snapshot_next_index, last_applied_log + 1)`, with a loader wired to this node's components,
+    /// then the end-of-loading announcements.  Nothing at all when nothing was ever applied (or the manager is not wired).
+    pub open spec fn replay_effs(&self) -> Seq<Eff> {
+        if self.last_applied_log == 0 || self.log_manager is None || self.data_wrap is None { seq![] }
+        else {
+            seq![Eff { to: addr_id(self.log_manager.unwrap()), msg: load_msg(self.snapshot_next_index, (self.last_applied_log + 1) as u64,
+                LogRecordLoaderInstance { data_wrap: self.data_wrap.unwrap(), index_manager: self.index_manager.unwrap() }) }]
+            + complete_effs(self.h())
+        }
+    }
+    pub open spec fn fully_wired(&self) -> bool {
+        self.data_wrap is Some && self.index_manager is Some && self.log_manager is Some && self.snapshot_manager is Some
+            && self.last_applied_log < u64::MAX
+    }
+}
+
 /// the messages a whole committed sequence stands for
 pub open spec fn effs_all(h: RaftDataHandler, im: Addr<RaftIndexManager>, reqs: Seq<ClientRequest>) -> Seq<Eff>
     decreases reqs.len()
